@@ -26,7 +26,12 @@ def make_result(eng, st, con, E, case=None):
     return st, wrap(fresh("res", sort_of(r)), r)
 
 
+ASSUMED_USED = {}      # key -> note of every ASSUMED contract applied at a call site in this process (reported in the evidence)
+
+
 def apply_contract(eng, st, con, pos, kw, constructing=None):
+    if con.assumed:
+        ASSUMED_USED[con.key] = con.note
     if constructing is not None:
         # the object under construction is created by the contract's `result` builder before binding `self`
         a = eng.bind_contract_args(con, [None] + list(pos), kw)
